@@ -174,7 +174,239 @@ class Kwargify(ast.NodeTransformer):
         return node
 
 
-TRANSFORMS = dict(augexpand=AugExpand, withsplit=WithSplit, kwargify=Kwargify, flipcmp=FlipCmp, ifswap=IfSwap, commute=Commute, kwrev=KwRev, retvar=RetVar, rename=Rename, notnot=NotNot)
+def _pure_callee(f):
+    return isinstance(f, ast.Name) or (isinstance(f, ast.Attribute) and _pure_callee(f.value))
+
+
+class HoistArgs(ast.NodeTransformer):
+    """x = f(g(a), h(b))  ->  _h0 = g(a); _h1 = h(b); x = f(_h0, _h1)   (call arguments that are calls, hoisted in evaluation order;
+    only for plain assignment / expression / return statements whose value is a call with a side-effect free callee expression)"""
+
+    def _rewrite_block(self, stmts):
+        out = []
+        for s in stmts:
+            for f in ('body', 'orelse', 'finalbody'):
+                b = getattr(s, f, None)
+                if isinstance(b, list) and b and isinstance(b[0], ast.stmt) and not isinstance(s, (ast.FunctionDef, ast.AsyncFunctionDef, ast.ClassDef)):
+                    setattr(s, f, self._rewrite_block(b))
+            if isinstance(s, ast.Try):
+                for h in s.handlers:
+                    h.body = self._rewrite_block(h.body)
+            call = s.value if isinstance(s, (ast.Assign, ast.Expr, ast.Return)) and isinstance(getattr(s, 'value', None), ast.Call) else None
+            if call is not None and _pure_callee(call.func) and not any(isinstance(a, ast.Starred) for a in call.args) and self.in_func and not self.is_gen:
+                k = 0
+                pre = []
+                seen_complex = False
+                for i, a in enumerate(call.args):
+                    if isinstance(a, ast.Call) and not seen_complex:
+                        name = f'_h{self.counter}'
+                        self.counter += 1
+                        pre.append(ast.Assign(targets=[ast.Name(id=name, ctx=ast.Store())], value=a, lineno=s.lineno))
+                        call.args[i] = ast.Name(id=name, ctx=ast.Load())
+                        k += 1
+                    elif not isinstance(a, (ast.Name, ast.Constant)):
+                        seen_complex = True     # later calls may not be moved before this argument's evaluation
+                out.extend(pre)
+            out.append(s)
+        return out
+
+    def visit_FunctionDef(self, node):
+        self.counter = 0
+        self.in_func = True
+        self.is_gen = False
+        node.body = self._rewrite_block(node.body)
+        return node
+
+
+class LoopToComp(ast.NodeTransformer):
+    """xs = []; for v in it: xs.append(e)  ->  xs = [e for v in it]   (adjacent statements, single append, xs not used in e / it)"""
+
+    def _rewrite_block(self, stmts):
+        out = []
+        i = 0
+        while i < len(stmts):
+            s = stmts[i]
+            nxt = stmts[i + 1] if i + 1 < len(stmts) else None
+            if isinstance(s, ast.Assign) and len(s.targets) == 1 and isinstance(s.targets[0], ast.Name) and isinstance(s.value, ast.List) and not s.value.elts \
+                    and isinstance(nxt, ast.For) and not nxt.orelse and len(nxt.body) == 1 and isinstance(nxt.body[0], ast.Expr) and isinstance(nxt.body[0].value, ast.Call):
+                c = nxt.body[0].value
+                xs = s.targets[0].id
+                if isinstance(c.func, ast.Attribute) and c.func.attr == 'append' and isinstance(c.func.value, ast.Name) and c.func.value.id == xs and len(c.args) == 1 and not c.keywords \
+                        and xs not in {n.id for n in ast.walk(c.args[0]) if isinstance(n, ast.Name)} and xs not in {n.id for n in ast.walk(nxt.iter) if isinstance(n, ast.Name)}:
+                    comp = ast.ListComp(elt=c.args[0], generators=[ast.comprehension(target=nxt.target, iter=nxt.iter, ifs=[], is_async=0)])
+                    out.append(ast.Assign(targets=[ast.Name(id=xs, ctx=ast.Store())], value=comp, lineno=s.lineno))
+                    i += 2
+                    continue
+            for f in ('body', 'orelse', 'finalbody'):
+                b = getattr(s, f, None)
+                if isinstance(b, list) and b and isinstance(b[0], ast.stmt) and not isinstance(s, (ast.ClassDef,)):
+                    setattr(s, f, self._rewrite_block(b))
+            if isinstance(s, ast.Try):
+                for h in s.handlers:
+                    h.body = self._rewrite_block(h.body)
+            out.append(s)
+            i += 1
+        return out
+
+    def visit_Module(self, node):
+        node.body = self._rewrite_block(node.body)
+        return node
+
+
+class CompToLoop(ast.NodeTransformer):
+    """xs = [e for v in it (if c)]  ->  xs = []; for v in it: (if c:) xs.append(e)   (single generator, plain assignment to a name)"""
+
+    def _rewrite_block(self, stmts):
+        out = []
+        for s in stmts:
+            for f in ('body', 'orelse', 'finalbody'):
+                b = getattr(s, f, None)
+                if isinstance(b, list) and b and isinstance(b[0], ast.stmt) and not isinstance(s, (ast.ClassDef,)):
+                    setattr(s, f, self._rewrite_block(b))
+            if isinstance(s, ast.Try):
+                for h in s.handlers:
+                    h.body = self._rewrite_block(h.body)
+            if isinstance(s, ast.Assign) and len(s.targets) == 1 and isinstance(s.targets[0], ast.Name) and isinstance(s.value, ast.ListComp) and len(s.value.generators) == 1 \
+                    and not s.value.generators[0].is_async and self.depth > 0:
+                g = s.value.generators[0]
+                xs = s.targets[0].id
+                names = {n.id for n in ast.walk(s.value) if isinstance(n, ast.Name)}
+                if xs not in names:
+                    app = ast.Expr(value=ast.Call(func=ast.Attribute(value=ast.Name(id=xs, ctx=ast.Load()), attr='append', ctx=ast.Load()), args=[s.value.elt], keywords=[]))
+                    body = [app]
+                    for c in reversed(g.ifs):
+                        body = [ast.If(test=c, body=body, orelse=[])]
+                    out.append(ast.Assign(targets=[ast.Name(id=xs, ctx=ast.Store())], value=ast.List(elts=[], ctx=ast.Load()), lineno=s.lineno))
+                    out.append(ast.For(target=g.target, iter=g.iter, body=body, orelse=[], lineno=s.lineno))
+                    continue
+            out.append(s)
+        return out
+
+    def visit_FunctionDef(self, node):
+        self.depth = getattr(self, 'depth', 0) + 1
+        node.body = self._rewrite_block(node.body)
+        self.depth -= 1
+        return node
+
+
+def _always_exits(stmts):
+    if not stmts:
+        return False
+    last = stmts[-1]
+    if isinstance(last, (ast.Return, ast.Raise, ast.Continue, ast.Break)):
+        return True
+    if isinstance(last, ast.If) and last.orelse:
+        return _always_exits(last.body) and _always_exits(last.orelse)
+    return False
+
+
+class GuardClause(ast.NodeTransformer):
+    """if c: A(exits) else: B   ->   if c: A;  B      (the else of a branch that always leaves is dedented)"""
+
+    def _rewrite_block(self, stmts):
+        out = []
+        for s in stmts:
+            for f in ('body', 'orelse', 'finalbody'):
+                b = getattr(s, f, None)
+                if isinstance(b, list) and b and isinstance(b[0], ast.stmt) and not isinstance(s, (ast.ClassDef,)):
+                    setattr(s, f, self._rewrite_block(b))
+            if isinstance(s, ast.Try):
+                for h in s.handlers:
+                    h.body = self._rewrite_block(h.body)
+            if isinstance(s, ast.If) and s.orelse and _always_exits(s.body) and isinstance(s.body[-1], (ast.Return, ast.Raise)):
+                rest = s.orelse
+                s.orelse = []
+                out.append(s)
+                out.extend(rest)
+                continue
+            out.append(s)
+        return out
+
+    def visit_FunctionDef(self, node):
+        node.body = self._rewrite_block(node.body)
+        return node
+
+
+class RetIfExp(ast.NodeTransformer):
+    """if c: return A else: return B  ->  return A if c else B ;  if c: x = A else: x = B  ->  x = A if c else B"""
+
+    def visit_If(self, node):
+        self.generic_visit(node)
+        if len(node.body) == 1 and len(node.orelse) == 1:
+            a, b = node.body[0], node.orelse[0]
+            if isinstance(a, ast.Return) and isinstance(b, ast.Return) and a.value is not None and b.value is not None:
+                return ast.Return(value=ast.IfExp(test=node.test, body=a.value, orelse=b.value))
+            if isinstance(a, ast.Assign) and isinstance(b, ast.Assign) and len(a.targets) == 1 and len(b.targets) == 1 and isinstance(a.targets[0], ast.Name) \
+                    and isinstance(b.targets[0], ast.Name) and a.targets[0].id == b.targets[0].id:
+                return ast.Assign(targets=[ast.Name(id=a.targets[0].id, ctx=ast.Store())], value=ast.IfExp(test=node.test, body=a.value, orelse=b.value), lineno=node.lineno)
+        return node
+
+
+class IfExpStmt(ast.NodeTransformer):
+    """x = A if c else B  ->  if c: x = A else: x = B ;  return A if c else B  ->  if c: return A else: return B"""
+
+    def visit_Assign(self, node):
+        if len(node.targets) == 1 and isinstance(node.targets[0], ast.Name) and isinstance(node.value, ast.IfExp) and self.depth > 0:
+            t = node.targets[0].id
+            return ast.If(test=node.value.test, body=[ast.Assign(targets=[ast.Name(id=t, ctx=ast.Store())], value=node.value.body, lineno=node.lineno)],
+                          orelse=[ast.Assign(targets=[ast.Name(id=t, ctx=ast.Store())], value=node.value.orelse, lineno=node.lineno)])
+        return node
+
+    def visit_Return(self, node):
+        if isinstance(node.value, ast.IfExp):
+            return ast.If(test=node.value.test, body=[ast.Return(value=node.value.body)], orelse=[ast.Return(value=node.value.orelse)])
+        return node
+
+    def visit_FunctionDef(self, node):
+        self.depth = getattr(self, 'depth', 0) + 1
+        self.generic_visit(node)
+        self.depth -= 1
+        return node
+
+    def visit_ClassDef(self, node):
+        saved = getattr(self, 'depth', 0)
+        self.depth = 0
+        self.generic_visit(node)
+        self.depth = saved
+        return node
+
+    def visit_Lambda(self, node):
+        return node
+
+
+class SplitAnd(ast.NodeTransformer):
+    """if a and b: S  (no else)  ->  if a: if b: S"""
+
+    def visit_If(self, node):
+        self.generic_visit(node)
+        if not node.orelse and isinstance(node.test, ast.BoolOp) and isinstance(node.test.op, ast.And) and len(node.test.values) == 2:
+            return ast.If(test=node.test.values[0], body=[ast.If(test=node.test.values[1], body=node.body, orelse=[])], orelse=[])
+        return node
+
+
+class MergeIf(ast.NodeTransformer):
+    """if a: if b: S  (no elses, nothing else in the outer body)  ->  if a and b: S"""
+
+    def visit_If(self, node):
+        self.generic_visit(node)
+        if not node.orelse and len(node.body) == 1 and isinstance(node.body[0], ast.If) and not node.body[0].orelse:
+            inner = node.body[0]
+            return ast.If(test=ast.BoolOp(op=ast.And(), values=[node.test, inner.test]), body=inner.body, orelse=[])
+        return node
+
+
+class DeMorgan(ast.NodeTransformer):
+    """not (a and b) -> not a or not b ; not (a or b) -> not a and not b"""
+
+    def visit_UnaryOp(self, node):
+        self.generic_visit(node)
+        if isinstance(node.op, ast.Not) and isinstance(node.operand, ast.BoolOp):
+            b = node.operand
+            return ast.BoolOp(op=ast.Or() if isinstance(b.op, ast.And) else ast.And(), values=[ast.UnaryOp(op=ast.Not(), operand=v) for v in b.values])
+        return node
+
+
+TRANSFORMS = dict(hoistargs=HoistArgs, loop2comp=LoopToComp, comp2loop=CompToLoop, guardclause=GuardClause, retifexp=RetIfExp, ifexpstmt=IfExpStmt, splitand=SplitAnd, mergeif=MergeIf, demorgan=DeMorgan, augexpand=AugExpand, withsplit=WithSplit, kwargify=Kwargify, flipcmp=FlipCmp, ifswap=IfSwap, commute=Commute, kwrev=KwRev, retvar=RetVar, rename=Rename, notnot=NotNot)
 
 
 def py_files(root):
